@@ -129,6 +129,15 @@ static sqf::runtime::runtime::result execute_do(sqf::runtime::runtime& runtime, 
 
         auto result = frame.next(runtime);
 
+        if (runtime_error)
+        { // An exit behavior (loop condition, iteration result, ...) raised a runtime error
+            if (!recover_runtime_error(runtime, context_active.current_frame().diag_info_from_position()))
+            {
+                return sqf::runtime::runtime::result::runtime_error;
+            }
+            continue;
+        }
+
         if (result == sqf::runtime::frame::result::done && context_active.frames_size() == frame_count)
         { // frame is done executing. Pop it from context and rerun.
 
